@@ -4,749 +4,9 @@ use vstd::prelude::*;
 use std::collections::VecDeque;
 verus! {
 //@nopub
-//@include bits.rs
 //@include ioerr.rs
 //@include error.rs
-
-// ---- shims: std calls Verus has no specification for (assumed std semantics) ----
-#[verifier::external_body]
-fn vec_drain_prefix(v: &mut Vec<u8>, n: usize) -> (r: Vec<u8>)
-    requires n <= old(v)@.len()
-    ensures r@ == old(v)@.subrange(0, n as int), final(v)@ == old(v)@.subrange(n as int, old(v)@.len() as int)
-{ v.drain(..n).collect() }
-#[verifier::external_body]
-fn vec_drain_all(v: &mut Vec<u8>) -> (r: Vec<u8>)
-    ensures r@ == old(v)@, final(v)@.len() == 0
-{ v.drain(..).collect() }
-#[verifier::external_body]
-fn shim_u128_from_le_bytes(b: [u8; 16]) -> (r: u128)
-    ensures r == le128(b@)
-{ u128::from_le_bytes(b) }
-#[verifier::external_body]
-fn shim_u64_to_le_bytes(x: u64) -> (r: [u8; 8])
-    ensures r@ == le_bytes64(x)
-{ x.to_le_bytes() }
-#[verifier::external_body]
-fn shim_u32_to_le_bytes(x: u32) -> (r: [u8; 4])
-    ensures r@ == le_bytes32(x)
-{ x.to_le_bytes() }
-#[verifier::external_body]
-fn shim_i128_ilog2(x: i128) -> (r: u32)
-    requires x > 0
-    ensures r as int == lg2(x as int)
-{ x.ilog2() }
-// floats: byte images are uninterpreted; assumed: from_le_bytes inverts to_le_bytes bit for bit
-pub uninterp spec fn f32_le(x: f32) -> Seq<u8>;
-pub uninterp spec fn f64_le(x: f64) -> Seq<u8>;
-pub uninterp spec fn f32_from_le(b: Seq<u8>) -> f32;
-pub uninterp spec fn f64_from_le(b: Seq<u8>) -> f64;
-#[verifier::external_body]
-pub proof fn axiom_float_le_roundtrip()
-    ensures forall|x: f32| #[trigger] f32_from_le(f32_le(x)) == x, forall|x: f64| #[trigger] f64_from_le(f64_le(x)) == x,
-        forall|x: f32| (#[trigger] f32_le(x)).len() == 4, forall|x: f64| (#[trigger] f64_le(x)).len() == 8,
-{}
-#[verifier::external_body]
-fn shim_f32_to_le_bytes(x: &f32) -> (r: [u8; 4]) ensures r@ == f32_le(*x) { x.to_le_bytes() }
-#[verifier::external_body]
-fn shim_f64_to_le_bytes(x: &f64) -> (r: [u8; 8]) ensures r@ == f64_le(*x) { x.to_le_bytes() }
-#[verifier::external_body]
-fn shim_f32_from_le_bytes(b: [u8; 4]) -> (r: f32) ensures r == f32_from_le(b@) { f32::from_le_bytes(b) }
-#[verifier::external_body]
-fn shim_f64_from_le_bytes(b: [u8; 8]) -> (r: f64) ensures r == f64_from_le(b@) { f64::from_le_bytes(b) }
-#[verifier::external_body]
-fn shim_size_of_f32() -> (r: usize) ensures r == 4 { std::mem::size_of::<f32>() }
-#[verifier::external_body]
-fn shim_size_of_f64() -> (r: usize) ensures r == 8 { std::mem::size_of::<f64>() }
-
-// =================================================================================================
-// bs_write.rs
-// =================================================================================================
-//@item src/bs_write.rs struct ByteStreamWriteBuffer
-//@enditem
-
-impl ByteStreamWriteBuffer {
-    pub open spec fn nbits(&self) -> int {
-        if self.last_byte_bit == 0 { 8 * (self.buffer@.len() as int) } else { 8 * (self.buffer@.len() - 1) + self.last_byte_bit }
-    }
-    /// representation invariant: phase < 8, a partial byte exists iff phase != 0,
-    /// every bit of the last byte above the fill level is 0 (the bit loop ORs into it)
-    pub open spec fn wf(&self) -> bool {
-        &&& self.last_byte_bit < 8
-        &&& (self.last_byte_bit != 0 ==> self.buffer@.len() > 0)
-        &&& forall|i: int| self.nbits() <= i < 8 * self.buffer@.len() ==> !bit_at(self.buffer@, i)
-    }
-    /// abstract view: the bit string written so far and not yet taken out
-    pub open spec fn bits(&self) -> Seq<bool> {
-        Seq::new(self.nbits() as nat, |i: int| bit_at(self.buffer@, i))
-    }
-
-//@fn src/bs_write.rs ByteStreamWriteBuffer new serves=C12,C01 ret=r
-//@sig
-        ensures r.wf(), r.bits() =~= Seq::<bool>::empty()
-//@endfn
-
-    proof fn lemma_aligned(o: Self, n: Self, data: Seq<u8>, bits: usize)
-        requires
-            o.wf(), o.last_byte_bit == 0, bits <= 8 * data.len(),
-            forall|i: int| bits <= i < 8 * ((bits + 7) / 8) ==> !bit_at(data, i),
-            n.buffer@ =~= o.buffer@ + data.subrange(0, ((bits + 7) / 8) as int),
-            n.last_byte_bit == bits % 8,
-        ensures
-            n.wf(),
-            n.bits() =~= o.bits() + Seq::new(bits as nat, |i: int| bit_at(data, i)),
-    {
-        let ob = o.buffer@;
-        let nb = n.buffer@;
-        assert(n.nbits() == 8 * ob.len() + bits);
-        assert forall|i: int| 0 <= i < 8 * nb.len() implies
-            #[trigger] bit_at(nb, i) == (if i < 8 * ob.len() { bit_at(ob, i) } else { bit_at(data, i - 8 * ob.len()) }) by {
-            if i < 8 * ob.len() { assert(nb[i / 8] == ob[i / 8]); } else {
-                assert(nb[i / 8] == data[i / 8 - ob.len()]);
-                assert((i - 8 * ob.len()) / 8 == i / 8 - ob.len());
-                assert((i - 8 * ob.len()) % 8 == i % 8);
-            }
-        }
-    }
-
-    proof fn lemma_unaligned(o: Self, n: Self, data: Seq<u8>, bits: usize)
-        requires
-            o.wf(), o.last_byte_bit != 0,
-            n.last_byte_bit == (o.last_byte_bit + bits) % 8,
-            n.buffer@.len() == (o.nbits() + bits + 7) / 8,
-            forall|i: int| o.nbits() + bits <= i < 8 * n.buffer@.len() ==> !bit_at(n.buffer@, i),
-            forall|i: int| 0 <= i < o.nbits() ==> bit_at(n.buffer@, i) == bit_at(o.buffer@, i),
-            forall|i: int| 0 <= i < bits ==> bit_at(n.buffer@, o.nbits() + i) == bit_at(data, i),
-        ensures
-            n.wf(),
-            n.bits() =~= o.bits() + Seq::new(bits as nat, |i: int| bit_at(data, i)),
-    {
-        assert(n.nbits() == o.nbits() + bits);
-    }
-
-//@fn src/bs_write.rs ByteStreamWriteBuffer add_bits serves=C12,C01,C10
-//@sig
-        requires
-            old(self).wf(),
-            bits <= 8 * data@.len(), bits + 16 < usize::MAX,
-            old(self).buffer@.len() + data@.len() + 16 < usize::MAX,
-            // the bits of the copied source bytes above `bits` are clear
-            forall|i: int| bits <= i < 8 * ((bits + 7) / 8) ==> !bit_at(data@, i),
-        ensures
-            final(self).wf(),
-            // exact width, LSB first, contiguous with what was there
-            final(self).bits() =~= old(self).bits() + Seq::new(bits as nat, |i: int| bit_at(data@, i)),
-//@loop 0 before hdr=for b in 0\.\.bits
-            let ghost p0: int = 8 * start_byte + start_bit;
-//@loop 0 head
-                invariant
-                    1 <= start_bit < 8,
-                    bits <= 8 * data@.len(), bits + 16 < usize::MAX,
-                    p0 == 8 * start_byte + start_bit,
-                    start_byte + data@.len() + 16 < usize::MAX,
-                    start_byte == old(self).buffer@.len() - 1, start_bit == old(self).last_byte_bit,
-                    self.last_byte_bit == (start_bit + b) % 8,
-                    self.buffer@.len() == (p0 + b + 7) / 8,
-                    forall|i: int| p0 + b <= i < 8 * self.buffer@.len() ==> !bit_at(self.buffer@, i),
-                    forall|i: int| 0 <= i < p0 ==> bit_at(self.buffer@, i) == bit_at(old(self).buffer@, i),
-                    forall|i: int| 0 <= i < b ==> bit_at(self.buffer@, p0 + i) == bit_at(data@, i),
-//@loop 0 body_start
-                let ghost pre = self.buffer@;
-//@loop 0 body_end
-                proof {
-                    lemma_mask_bit(data@[source_byte as int], (b % 8) as usize);
-                    lemma_bit_step(pre, self.buffer@, p0 + b, source_bit);
-                }
-//@fn_end
-        proof {
-            if old(self).last_byte_bit == 0 { Self::lemma_aligned(*old(self), *self, data@, bits); }
-            else { Self::lemma_unaligned(*old(self), *self, data@, bits); }
-        }
-//@endfn
-
-//@fn src/bs_write.rs ByteStreamWriteBuffer add_bytes serves=C12,C01
-//@sig
-        requires old(self).wf(), old(self).buffer@.len() + data@.len() + 16 < usize::MAX, 8 * data@.len() + 16 < usize::MAX,
-        ensures final(self).wf(), final(self).bits() =~= old(self).bits() + bits_of(data@),
-//@fn_end
-        proof {
-            if old(self).last_byte_bit == 0 { Self::lemma_aligned(*old(self), *self, data@, (8 * data@.len()) as usize);
-                assert(data@.subrange(0, data@.len() as int) =~= data@); }
-        }
-//@endfn
-
-//@fn src/bs_write.rs ByteStreamWriteBuffer get_full_bytes serves=C12,C01 ret=r
-//@rw self\.buffer\.drain\(\.\.to_take\)\.collect\(\) ==> { let out = vec_drain_prefix(&mut self.buffer, to_take); proof { Self::lemma_take(*old(self), *self, out@); } out }
-//@sig
-        requires old(self).wf()
-        ensures final(self).wf(),
-            r@.len() == old(self).nbits() / 8,
-            // the emitted bytes are exactly the first 8*|r| bits, the partial byte stays behind
-            bits_of(r@) + final(self).bits() =~= old(self).bits(),
-            final(self).last_byte_bit == old(self).last_byte_bit,
-//@endfn
-
-//@fn src/bs_write.rs ByteStreamWriteBuffer get_all_bytes serves=C12,C01 ret=r
-//@rw self\.buffer\.drain\(\.\.\)\.collect\(\) ==> vec_drain_all(&mut self.buffer)
-//@sig
-        requires old(self).wf()
-        ensures final(self).wf(), final(self).bits() =~= Seq::<bool>::empty(),
-            r@.len() == (old(self).nbits() + 7) / 8,
-            // everything is emitted, zero-padded to a whole byte
-            bits_of(r@).subrange(0, old(self).nbits()) =~= old(self).bits(),
-            forall|i: int| old(self).nbits() <= i < 8 * r@.len() ==> !bit_at(r@, i),
-//@endfn
-
-    proof fn lemma_take(o: Self, n: Self, r: Seq<u8>)
-        requires o.wf(), r =~= o.buffer@.subrange(0, o.nbits() / 8),
-            n.buffer@ =~= o.buffer@.subrange(o.nbits() / 8, o.buffer@.len() as int), n.last_byte_bit == o.last_byte_bit,
-        ensures n.wf(), bits_of(r) + n.bits() =~= o.bits()
-    {
-        let t = o.nbits() / 8;
-        assert(n.nbits() == o.nbits() - 8 * t);
-        assert forall|i: int| 0 <= i < 8 * n.buffer@.len() implies #[trigger] bit_at(n.buffer@, i) == bit_at(o.buffer@, i + 8 * t) by {
-            assert(n.buffer@[i / 8] == o.buffer@[i / 8 + t]);
-            assert((i + 8 * t) / 8 == i / 8 + t);
-            assert((i + 8 * t) % 8 == i % 8);
-        }
-        assert forall|i: int| 0 <= i < 8 * r.len() implies #[trigger] bit_at(r, i) == bit_at(o.buffer@, i) by {
-            assert(r[i / 8] == o.buffer@[i / 8]);
-        }
-        let lhs = bits_of(r) + n.bits();
-        assert(lhs.len() == o.bits().len());
-        assert forall|i: int| 0 <= i < lhs.len() implies lhs[i] == o.bits()[i] by {
-            if i < 8 * r.len() { } else { assert(lhs[i] == n.bits()[i - 8 * t]); }
-        }
-    }
-
-//@fn src/bs_write.rs ByteStreamWriteBuffer full_bytes serves=C12,C01 ret=r
-//@sig
-        requires self.wf()
-        ensures r as int == self.nbits() / 8
-//@endfn
-
-//@fn src/bs_write.rs ByteStreamWriteBuffer all_bytes serves=C12,C01 ret=r
-//@sig
-        ensures r == self.buffer@.len()
-//@endfn
-
-    // canary: a deliberately false postcondition on a real function must fail (vacuity guard)
-//@fn src/bs_write.rs ByteStreamWriteBuffer full_bytes rename=full_bytes__canary canary ret=r
-//@sig
-        requires self.wf()
-        ensures r as int == self.nbits() / 8 + 1
-//@endfn
-}
-
-// =================================================================================================
-// record.rs — packing functions
-// =================================================================================================
-#[allow(inconsistent_fields)]
-//@item src/record.rs enum RecordDataType
-//@enditem
-//@item src/record.rs enum RecordValue
-//@enditem
-
-//@fn src/record.rs - integer_bits serves=C12,C10,C08 ret=r
-//@rw range\.ilog2\(\) ==> shim_i128_ilog2(range)
-//@sig
-    ensures r as int == width(min, max)
-//@body_start
-    proof { lemma_width(min, max); }
-//@endfn
-
-//@fn src/record.rs - serialize_integer serves=C12,C10,C01
-//@rw uint\.to_le_bytes\(\) ==> shim_u64_to_le_bytes(uint)
-//@sig
-    requires old(buffer).wf(), old(buffer).buffer@.len() + 32 < usize::MAX,
-        // the packer's precondition: the value is representable in the declared range
-        min as int <= value as int <= max as int,
-    ensures final(buffer).wf(),
-        // stored as value - min, exactly width(min,max) bits, LSB first
-        final(buffer).bits() =~= old(buffer).bits() + enc_bits((value as int - min as int) as u64, width(min, max)),
-//@call integer_bits 0 after
-    proof {
-        lemma_width(min, max);
-        lemma_pow2_64();
-        let w = width(min, max);
-        assert forall|i: int| 0 <= i < 64 implies bit_at(data@, i) == bit64(uint, i) by { lemma_le_bytes64_bit(uint, i); }
-        assert forall|i: int| bits <= i < 8 * ((bits + 7) / 8) implies !bit_at(data@, i) by {
-            lemma_small_high_bits_clear(uint, w, i);
-        }
-    }
-//@endfn
-
-impl RecordDataType {
-//@fn src/record.rs RecordDataType bit_size serves=C12,C10,C08 ret=r
-//@rw std::mem::size_of::<f32>\(\) ==> shim_size_of_f32()
-//@rw std::mem::size_of::<f64>\(\) ==> shim_size_of_f64()
-//@sig
-        ensures r as int == self.spec_bit_size()
-//@endfn
-
-    /// C12: floats occupy 32 / 64 bits, integers width(min,max)
-    pub open spec fn spec_bit_size(&self) -> int {
-        match self {
-            RecordDataType::Single { .. } => 32,
-            RecordDataType::Double { .. } => 64,
-            RecordDataType::ScaledInteger { min, max, .. } => width(*min, *max),
-            RecordDataType::Integer { min, max } => width(*min, *max),
-        }
-    }
-    /// value v is representable by this type
-    pub open spec fn fits(&self, v: RecordValue) -> bool {
-        match (self, v) {
-            (RecordDataType::Single { .. }, RecordValue::Single(_)) => true,
-            (RecordDataType::Double { .. }, RecordValue::Double(_)) => true,
-            (RecordDataType::ScaledInteger { min, max, .. }, RecordValue::ScaledInteger(i)) => *min <= i <= *max,
-            (RecordDataType::Integer { min, max }, RecordValue::Integer(i)) => *min <= i <= *max,
-            _ => false,
-        }
-    }
-    pub open spec fn same_kind(&self, v: RecordValue) -> bool {
-        match (self, v) {
-            (RecordDataType::Single { .. }, RecordValue::Single(_)) => true,
-            (RecordDataType::Double { .. }, RecordValue::Double(_)) => true,
-            (RecordDataType::ScaledInteger { .. }, RecordValue::ScaledInteger(_)) => true,
-            (RecordDataType::Integer { .. }, RecordValue::Integer(_)) => true,
-            _ => false,
-        }
-    }
-    /// the bit string that stores v
-    pub open spec fn enc(&self, v: RecordValue) -> Seq<bool> {
-        match (self, v) {
-            (RecordDataType::Single { .. }, RecordValue::Single(f)) => bits_of(f32_le(f)),
-            (RecordDataType::Double { .. }, RecordValue::Double(f)) => bits_of(f64_le(f)),
-            (RecordDataType::ScaledInteger { min, max, .. }, RecordValue::ScaledInteger(i)) => enc_bits((i as int - *min as int) as u64, width(*min, *max)),
-            (RecordDataType::Integer { min, max }, RecordValue::Integer(i)) => enc_bits((i as int - *min as int) as u64, width(*min, *max)),
-            _ => Seq::<bool>::empty(),
-        }
-    }
-
-//@fn src/record.rs RecordDataType write serves=C12,C10,C01 ret=r
-//@rw float\.to_le_bytes\(\) ==> shim_f32_to_le_bytes(float)
-//@rw double\.to_le_bytes\(\) ==> shim_f64_to_le_bytes(double)
-//@rw \bint\b ==> int_v
-//@sig
-        requires old(buffer).wf(), old(buffer).buffer@.len() + 64 < usize::MAX,
-            // callers must only pass representable values (C10); a kind mismatch is reported as Err
-            self.same_kind(*value) ==> self.fits(*value),
-        ensures final(buffer).wf(),
-            (r is Ok) == self.same_kind(*value),
-            r is Ok ==> final(buffer).bits() =~= old(buffer).bits() + self.enc(*value),
-            r is Ok ==> self.enc(*value).len() == self.spec_bit_size(),
-            r is Err ==> final(buffer).bits() =~= old(buffer).bits(),
-//@body_start
-        proof { axiom_float_le_roundtrip(); match self { RecordDataType::ScaledInteger { min, max, .. } => lemma_width(*min, *max), RecordDataType::Integer { min, max } => lemma_width(*min, *max), _ => {} } }
-//@endfn
-}
-
-// =================================================================================================
-// bs_read.rs
-// =================================================================================================
-//@item src/bs_read.rs struct ByteStreamReadBuffer
-//@enditem
-
-/// no single stream buffer grows beyond this (a data packet is at most 64 KiB): keeps usize arithmetic in range
-pub spec const MAX_RB: int = 0x1000_0000;
-
-impl ByteStreamReadBuffer {
-    pub open spec fn wf(&self) -> bool { self.offset <= 8 * self.buffer@.len() && self.buffer@.len() <= MAX_RB && self.tmp@.len() == 0 }
-    /// abstract view: the bits not yet consumed
-    pub open spec fn rest(&self) -> Seq<bool> {
-        Seq::new((8 * self.buffer@.len() - self.offset) as nat, |i: int| bit_at(self.buffer@, self.offset + i))
-    }
-
-//@fn src/bs_read.rs ByteStreamReadBuffer new serves=C12,C03 ret=r
-//@sig
-        ensures r.wf(), r.rest() =~= Seq::<bool>::empty()
-//@endfn
-
-//@fn src/bs_read.rs ByteStreamReadBuffer append serves=C12,C03,C09,C08
-//@sig
-        requires old(self).wf(), old(self).buffer@.len() - old(self).offset / 8 + data@.len() <= MAX_RB
-        ensures final(self).wf(),
-            // unconsumed bits are kept (also a partially consumed byte), new bits go behind them
-            final(self).rest() =~= old(self).rest() + bits_of(data@),
-            // consumed whole bytes are dropped: memory is bounded by unconsumed + new
-            final(self).offset < 8,
-            final(self).buffer@.len() == old(self).buffer@.len() - old(self).offset / 8 + data@.len(),
-//@fn_end
-        proof {
-            let ob = old(self).buffer@; let nb = self.buffer@; let c = (old(self).offset / 8) as int;
-            assert(nb =~= ob.subrange(c, ob.len() as int) + data@);
-            assert forall|i: int| 0 <= i < 8 * nb.len() implies #[trigger] bit_at(nb, i) ==
-                (if i < 8 * (ob.len() - c) { bit_at(ob, i + 8 * c) } else { bit_at(data@, i - 8 * (ob.len() - c)) }) by {
-                if i < 8 * (ob.len() - c) {
-                    assert(nb[i / 8] == ob[i / 8 + c]);
-                    assert((i + 8 * c) / 8 == i / 8 + c);
-                    assert((i + 8 * c) % 8 == i % 8);
-                } else {
-                    let r = ob.len() - c;
-                    assert(nb[i / 8] == data@[i / 8 - r]);
-                    assert((i - 8 * r) / 8 == i / 8 - r);
-                    assert((i - 8 * r) % 8 == i % 8);
-                }
-            }
-        }
-//@endfn
-
-//@fn src/bs_read.rs ByteStreamReadBuffer extract serves=C12,C03,C08 ret=r
-//@rw u128::from_le_bytes\(data\) ==> shim_u128_from_le_bytes(data)
-//@sig
-        requires old(self).wf(), bits <= 64
-        ensures final(self).wf(), final(self).buffer@ == old(self).buffer@,
-            match r {
-                Some(v) => old(self).rest().len() >= bits
-                    // the low `bits` bits of the result are the next stream bits, LSB first, at any bit phase
-                    && (forall|k: int| 0 <= k < bits ==> bit64(v, k) == #[trigger] old(self).rest()[k])
-                    && final(self).rest() =~= old(self).rest().subrange(bits as int, old(self).rest().len() as int),
-                None => old(self).rest().len() < bits && final(self).offset == old(self).offset,
-            }
-//@call copy_from_slice 0 after
-        let ghost arr = data@;
-        let ghost dl = data_len;
-        let ghost so = start_offset;
-//@tail
-        proof {
-            let v128 = le128(arr);
-            assert forall|k: int| 0 <= k < bits implies bit64(data as u64, k) == #[trigger] old(self).rest()[k] by {
-                lemma_shift_trunc(v128, offset, k);
-                lemma_le128_bit(arr, k + offset);
-                let j = k + offset;
-                assert(j / 8 < dl);
-                assert(arr[j / 8] == old(self).buffer@[so + j / 8]);
-                assert((old(self).offset + k) / 8 == so + j / 8);
-                assert((old(self).offset + k) % 8 == j % 8);
-            }
-        }
-//@endfn
-
-//@fn src/bs_read.rs ByteStreamReadBuffer available serves=C12,C03,C08 ret=r
-//@sig
-        requires self.wf()
-        ensures r == self.rest().len()
-//@endfn
-}
-
-// =================================================================================================
-// bitpack.rs
-// =================================================================================================
-//@item src/bitpack.rs struct BitPack
-//@enditem
-
-/// the value the int decoder must produce for chunk j of width w
-pub open spec fn dec_int(r: Seq<bool>, j: int, w: int, min: i64) -> i64 {
-    ((chunk_val(chunk(r, j, w)) as i128 + min as i128) as i64)
-}
-/// the 8 bytes / 4 bytes whose bits are chunk j
-pub open spec fn chunk_bytes(r: Seq<bool>, j: int, w: int) -> Seq<u8> {
-    if w == 64 { le_bytes64(chunk_val(chunk(r, j, 64))) } else { le_bytes32(chunk_val(chunk(r, j, 32)) as u32) }
-}
-
-impl BitPack {
-//@fn src/bitpack.rs BitPack unpack_ints serves=C12,C03,C08,C09 ret=r
-//@rw range\.ilog2\(\) ==> shim_i128_ilog2(range)
-//@rw \bint\b ==> int_v
-//@sig
-        requires old(stream).wf(), min < max
-        ensures
-            final(stream).wf(),
-            r is Ok,
-            ({
-                let w = width(min, max);
-                let k = old(stream).rest().len() as int / w;
-                // exactly floor(|rest| / w) values, in order, each = chunk + min; the leftover bits stay
-                &&& final(output)@.len() == old(output)@.len() + k
-                &&& final(stream).rest() =~= old(stream).rest().subrange(k * w, old(stream).rest().len() as int)
-                &&& final(stream).buffer@ == old(stream).buffer@
-                &&& forall|j: int| 0 <= j < old(output)@.len() ==> final(output)@[j] == old(output)@[j]
-                &&& forall|j: int| 0 <= j < k ==> #[trigger] final(output)@[old(output)@.len() + j]
-                        == RecordValue::Integer(dec_int(old(stream).rest(), j, w, min))
-            }),
-//@call shim_i128_ilog2 0 before
-        proof { lemma_width(min, max); }
-//@call shim_i128_ilog2 0 after
-        proof { assert(1u128 << (bits as u128) >= 1u128) by (bit_vector) requires 1 <= bits <= 64;
-                assert((1u128 << bits) == (1u128 << (bits as u128))) by (bit_vector); }
-//@loop 0 before hdr=while let Some\(uint\) = stream\.extract\(bits\)
-        let ghost r0 = stream.rest();
-        let ghost out0 = output@;
-        let ghost n: int = 0;
-//@loop 0 head
-            invariant
-                1 <= bits <= 64, stream.wf(), bits == width(min, max),
-                mask == (((1u128 << (bits as u128)) - 1) as u64),
-                0 <= n, n * bits <= r0.len(),
-                stream.buffer@ == old(stream).buffer@,
-                stream.rest() =~= r0.subrange(n * bits, r0.len() as int),
-                output@.len() == out0.len() + n,
-                forall|j: int| 0 <= j < out0.len() ==> output@[j] == out0[j],
-                forall|j: int| 0 <= j < n ==> #[trigger] output@[out0.len() + j]
-                        == RecordValue::Integer(dec_int(r0, j, bits as int, min)),
-            ensures
-                stream.wf(), 0 <= n, n * bits <= r0.len(),
-                stream.buffer@ == old(stream).buffer@,
-                stream.rest() =~= r0.subrange(n * bits, r0.len() as int),
-                stream.rest().len() < bits,
-                output@.len() == out0.len() + n,
-                forall|j: int| 0 <= j < out0.len() ==> output@[j] == out0[j],
-                forall|j: int| 0 <= j < n ==> #[trigger] output@[out0.len() + j]
-                        == RecordValue::Integer(dec_int(r0, j, bits as int, min)),
-            decreases stream.rest().len()
-//@loop 0 body_end
-            proof {
-                let x = uint & mask;
-                let c = chunk(r0, n, bits as int);
-                assert forall|k: int| 0 <= k < 64 implies bit64(x, k) == (k < c.len() && c[k]) by {
-                    lemma_mask(uint, bits as u64, k as u64);
-                }
-                assert(holds_bits(x, c));
-                lemma_chunk_val(x, c);
-                assert((n + 1) * bits == n * bits + bits) by (nonlinear_arith);
-                n = n + 1;
-            }
-//@tail
-        proof {
-            let w = bits as int;
-            let k = r0.len() as int / w;
-            assert(r0.len() - n * w < w);
-            assert(n == k) by (nonlinear_arith) requires 0 <= n, n * w <= r0.len(), r0.len() - n * w < w, w >= 1, k == r0.len() as int / w;
-        }
-//@endfn
-
-//@fn src/bitpack.rs BitPack unpack_scaled_ints serves=C12,C03,C08,C09 ret=r
-//@rw range\.ilog2\(\) ==> shim_i128_ilog2(range)
-//@rw \bint\b ==> int_v
-//@sig
-        requires old(stream).wf(), min < max
-        ensures
-            final(stream).wf(),
-            r is Ok,
-            ({
-                let w = width(min, max);
-                let k = old(stream).rest().len() as int / w;
-                &&& final(output)@.len() == old(output)@.len() + k
-                &&& final(stream).rest() =~= old(stream).rest().subrange(k * w, old(stream).rest().len() as int)
-                &&& final(stream).buffer@ == old(stream).buffer@
-                &&& forall|j: int| 0 <= j < old(output)@.len() ==> final(output)@[j] == old(output)@[j]
-                &&& forall|j: int| 0 <= j < k ==> #[trigger] final(output)@[old(output)@.len() + j]
-                        == RecordValue::ScaledInteger(dec_int(old(stream).rest(), j, w, min))
-            }),
-//@call shim_i128_ilog2 0 before
-        proof { lemma_width(min, max); }
-//@call shim_i128_ilog2 0 after
-        proof { assert(1u128 << (bits as u128) >= 1u128) by (bit_vector) requires 1 <= bits <= 64;
-                assert((1u128 << bits) == (1u128 << (bits as u128))) by (bit_vector); }
-//@loop 0 before hdr=while let Some\(uint\) = stream\.extract\(bits\)
-        let ghost r0 = stream.rest();
-        let ghost out0 = output@;
-        let ghost n: int = 0;
-//@loop 0 head
-            invariant
-                1 <= bits <= 64, stream.wf(), bits == width(min, max),
-                mask == (((1u128 << (bits as u128)) - 1) as u64),
-                0 <= n, n * bits <= r0.len(),
-                stream.buffer@ == old(stream).buffer@,
-                stream.rest() =~= r0.subrange(n * bits, r0.len() as int),
-                output@.len() == out0.len() + n,
-                forall|j: int| 0 <= j < out0.len() ==> output@[j] == out0[j],
-                forall|j: int| 0 <= j < n ==> #[trigger] output@[out0.len() + j]
-                        == RecordValue::ScaledInteger(dec_int(r0, j, bits as int, min)),
-            ensures
-                stream.wf(), 0 <= n, n * bits <= r0.len(),
-                stream.buffer@ == old(stream).buffer@,
-                stream.rest() =~= r0.subrange(n * bits, r0.len() as int),
-                stream.rest().len() < bits,
-                output@.len() == out0.len() + n,
-                forall|j: int| 0 <= j < out0.len() ==> output@[j] == out0[j],
-                forall|j: int| 0 <= j < n ==> #[trigger] output@[out0.len() + j]
-                        == RecordValue::ScaledInteger(dec_int(r0, j, bits as int, min)),
-            decreases stream.rest().len()
-//@loop 0 body_end
-            proof {
-                let x = uint & mask;
-                let c = chunk(r0, n, bits as int);
-                assert forall|k: int| 0 <= k < 64 implies bit64(x, k) == (k < c.len() && c[k]) by {
-                    lemma_mask(uint, bits as u64, k as u64);
-                }
-                assert(holds_bits(x, c));
-                lemma_chunk_val(x, c);
-                assert((n + 1) * bits == n * bits + bits) by (nonlinear_arith);
-                n = n + 1;
-            }
-//@tail
-        proof {
-            let w = bits as int;
-            let k = r0.len() as int / w;
-            assert(r0.len() - n * w < w);
-            assert(n == k) by (nonlinear_arith) requires 0 <= n, n * w <= r0.len(), r0.len() - n * w < w, w >= 1, k == r0.len() as int / w;
-        }
-//@endfn
-
-//@fn src/bitpack.rs BitPack unpack_doubles serves=C12,C03,C08,C09 ret=r
-//@rw data\.to_le_bytes\(\) ==> shim_u64_to_le_bytes(data)
-//@rw f64::from_le_bytes\(bytes\) ==> shim_f64_from_le_bytes(bytes)
-//@sig
-        requires old(stream).wf()
-        ensures
-            final(stream).wf(),
-            r is Ok,
-            ({
-                let k = old(stream).rest().len() as int / 64;
-                &&& final(output)@.len() == old(output)@.len() + k
-                &&& final(stream).rest() =~= old(stream).rest().subrange(k * 64, old(stream).rest().len() as int)
-                &&& final(stream).buffer@ == old(stream).buffer@
-                &&& forall|j: int| 0 <= j < old(output)@.len() ==> final(output)@[j] == old(output)@[j]
-                // each value is rebuilt from the 8 little-endian bytes holding the next 64 stream bits
-                &&& forall|j: int| 0 <= j < k ==> #[trigger] final(output)@[old(output)@.len() + j]
-                        == RecordValue::Double(f64_from_le(chunk_bytes(old(stream).rest(), j, 64)))
-            }),
-//@loop 0 before hdr=while let Some\(data\) = stream\.extract\(64\)
-        let ghost r0 = stream.rest();
-        let ghost out0 = output@;
-        let ghost n: int = 0;
-//@loop 0 head
-            invariant
-                stream.wf(),
-                0 <= n, n * 64 <= r0.len(),
-                stream.buffer@ == old(stream).buffer@,
-                stream.rest() =~= r0.subrange(n * 64, r0.len() as int),
-                output@.len() == out0.len() + n,
-                forall|j: int| 0 <= j < out0.len() ==> output@[j] == out0[j],
-                forall|j: int| 0 <= j < n ==> #[trigger] output@[out0.len() + j]
-                        == RecordValue::Double(f64_from_le(chunk_bytes(r0, j, 64))),
-            ensures
-                stream.wf(), 0 <= n, n * 64 <= r0.len(),
-                stream.buffer@ == old(stream).buffer@,
-                stream.rest() =~= r0.subrange(n * 64, r0.len() as int),
-                stream.rest().len() < 64,
-                output@.len() == out0.len() + n,
-                forall|j: int| 0 <= j < out0.len() ==> output@[j] == out0[j],
-                forall|j: int| 0 <= j < n ==> #[trigger] output@[out0.len() + j]
-                        == RecordValue::Double(f64_from_le(chunk_bytes(r0, j, 64))),
-            decreases stream.rest().len()
-//@loop 0 body_end
-            proof {
-                let c = chunk(r0, n, 64);
-                assert(holds_bits(data, c));
-                lemma_chunk_val(data, c);
-                n = n + 1;
-            }
-//@endfn
-
-//@fn src/bitpack.rs BitPack unpack_singles serves=C12,C03,C08,C09 ret=r
-//@rw \(data as u32\)\.to_le_bytes\(\) ==> shim_u32_to_le_bytes(data as u32)
-//@rw f32::from_le_bytes\(bytes\) ==> shim_f32_from_le_bytes(bytes)
-//@sig
-        requires old(stream).wf()
-        ensures
-            final(stream).wf(),
-            r is Ok,
-            ({
-                let k = old(stream).rest().len() as int / 32;
-                &&& final(output)@.len() == old(output)@.len() + k
-                &&& final(stream).rest() =~= old(stream).rest().subrange(k * 32, old(stream).rest().len() as int)
-                &&& final(stream).buffer@ == old(stream).buffer@
-                &&& forall|j: int| 0 <= j < old(output)@.len() ==> final(output)@[j] == old(output)@[j]
-                &&& forall|j: int| 0 <= j < k ==> #[trigger] final(output)@[old(output)@.len() + j]
-                        == RecordValue::Single(f32_from_le(chunk_bytes(old(stream).rest(), j, 32)))
-            }),
-//@loop 0 before hdr=while let Some\(data\) = stream\.extract\(32\)
-        let ghost r0 = stream.rest();
-        let ghost out0 = output@;
-        let ghost n: int = 0;
-//@loop 0 head
-            invariant
-                stream.wf(),
-                0 <= n, n * 32 <= r0.len(),
-                stream.buffer@ == old(stream).buffer@,
-                stream.rest() =~= r0.subrange(n * 32, r0.len() as int),
-                output@.len() == out0.len() + n,
-                forall|j: int| 0 <= j < out0.len() ==> output@[j] == out0[j],
-                forall|j: int| 0 <= j < n ==> #[trigger] output@[out0.len() + j]
-                        == RecordValue::Single(f32_from_le(chunk_bytes(r0, j, 32))),
-            ensures
-                stream.wf(), 0 <= n, n * 32 <= r0.len(),
-                stream.buffer@ == old(stream).buffer@,
-                stream.rest() =~= r0.subrange(n * 32, r0.len() as int),
-                stream.rest().len() < 32,
-                output@.len() == out0.len() + n,
-                forall|j: int| 0 <= j < out0.len() ==> output@[j] == out0[j],
-                forall|j: int| 0 <= j < n ==> #[trigger] output@[out0.len() + j]
-                        == RecordValue::Single(f32_from_le(chunk_bytes(r0, j, 32))),
-            decreases stream.rest().len()
-//@loop 0 body_end
-            proof {
-                let c = chunk(r0, n, 32);
-                lemma_low32(data, c);
-                n = n + 1;
-            }
-//@endfn
-}
-
-/// the low 32 bits of an extracted word are the chunk value
-proof fn lemma_low32(data: u64, c: Seq<bool>)
-    requires c.len() == 32, forall|k: int| 0 <= k < 32 ==> bit64(data, k) == c[k]
-    ensures chunk_val(c) as u32 == data as u32
-{
-    let x = data & 0xffff_ffffu64;
-    assert forall|k: int| 0 <= k < 64 implies bit64(x, k) == (k < c.len() && c[k]) by {
-        let kk = k as u64;
-        assert(kk < 64 ==> ((((data & 0xffff_ffffu64) >> kk) & 1u64 == 1u64) == (kk < 32 && ((data >> kk) & 1u64 == 1u64)))) by (bit_vector);
-    }
-    lemma_chunk_val(x, c);
-    assert((data & 0xffff_ffffu64) as u32 == data as u32) by (bit_vector);
-}
-
-// =================================================================================================
-// C12 corollaries (pure specification level, over the contracts above)
-// =================================================================================================
-
-/// integers: whatever was packed for a representable value is decoded to that value
-proof fn theorem_int_roundtrip(value: i64, min: i64, max: i64)
-    requires min <= value <= max, min < max
-    ensures ({
-        let w = width(min, max);
-        let stored = enc_bits((value as int - min as int) as u64, w);
-        // decoder applied to a stream that starts with `stored` (chunk 0 of width w)
-        &&& 1 <= w <= 64
-        &&& ((chunk_val(stored) as i128 + min as i128) as i64) == value
-    })
-{
-    lemma_width(min, max);
-    lemma_pow2_64();
-    let w = width(min, max);
-    let u = (value as int - min as int) as u64;
-    lemma_enc_dec(u, w);
-}
-
-/// floats: 4 / 8 little-endian bytes, bit-identical round trip (assumed std property of {to,from}_le_bytes)
-proof fn theorem_float_roundtrip(f: f32, d: f64)
-    ensures f32_from_le(f32_le(f)) == f, f64_from_le(f64_le(d)) == d, f32_le(f).len() == 4, f64_le(d).len() == 8
-{
-    axiom_float_le_roundtrip();
-}
-
-/// cut independence: appending the chunks of any cut of a byte stream gives the bits of the whole stream
-proof fn theorem_cut_independence(a: Seq<u8>, b: Seq<u8>, c: Seq<u8>)
-    ensures bits_of(a + b + c) =~= bits_of(a) + bits_of(b) + bits_of(c)
-{
-    lemma_bits_of_concat(a, b);
-    lemma_bits_of_concat(a + b, c);
-}
-
-/// width examples of the statement: 0 when equal, 64 for the full range, powers of two
-proof fn theorem_width_examples()
-    ensures width(5, 5) == 0, width(i64::MIN, i64::MAX) == 64, width(0, 1) == 1, width(0, 255) == 8, width(0, 256) == 9, width(-1i64, 0) == 1,
-{
-    lemma_width(i64::MIN, i64::MAX);
-    lemma_pow2_64();
-    reveal_with_fuel(lg2, 12);
-    reveal_with_fuel(pow2, 12);
-    // full range: max-min = 2^64-1 >= 2^63 so width > 63
-    let w = width(i64::MIN, i64::MAX);
-    if w <= 63 { lemma_pow2_mono(w, 63); }
-}
-
+//@include bits.rs
+//@include bits_body.rs
 } // verus!
 fn main() {}
